@@ -137,7 +137,13 @@ CORPUS += [
         expect=[('C19.I', 'list-valued-tensor-next-to-full')], note='the state of the tree before 51a10de'),
     Mut('c19-growth-starts-at-zero-with-a-constant-initialisation', 'torchtree/cli/evolution.py', 'create_coalesent', 'growth = Parameter.json_factory(f\'{id_}.growth\', **{\'tensor\': [0.01]})',
         "growth_value = 0.01\nif arg.coalescent_init == 'constant':\n    growth_value = 0.0\ngrowth = Parameter.json_factory(f'{id_}.growth', **{'tensor': [growth_value]})",
-        expect=[('C19.N', 'create_coalesent::growth-starts-off-the-singularity')]),
+        expect=[('C19.S', 'create_coalesent::growth-starts-off-the-singularity')]),
     Mut('c19-benign-growth-starts-small-with-a-constant-initialisation', 'torchtree/cli/evolution.py', 'create_coalesent', 'growth = Parameter.json_factory(f\'{id_}.growth\', **{\'tensor\': [0.01]})',
         "growth_value = 0.01\nif arg.coalescent_init == 'constant':\n    growth_value = 1e-06\ngrowth = Parameter.json_factory(f'{id_}.growth', **{'tensor': [growth_value]})", benign=True),
+]
+CORPUS += [
+    Mut('c19-clock-prior-chosen-by-the-unsplit-name', 'torchtree/cli/evolution.py', 'create_clock_prior', 'name, params = parse_distribution(arg.clockpr)',
+        "name, params = parse_distribution(arg.clockpr)\nif name == 'lognormal':\n    params = None", expect=[('C19.L', 'create_clock_prior::name ==')]),
+    Mut('c19-benign-clock-prior-chosen-by-the-first-element', 'torchtree/cli/evolution.py', 'create_clock_prior', 'name, params = parse_distribution(arg.clockpr)',
+        "name, params = parse_distribution(arg.clockpr)\nif arg.clockpr.split('(')[0] == 'lognormal':\n    params = None", benign=True),
 ]
